@@ -708,6 +708,13 @@ class Interp:
                     return default
                 raise PyRaise("AttributeError", "'%s' object has no attribute '%s'" % (v.cls.name, name))
             return self.bind(v, m)
+        if type(v).__name__ == "ModValRng" and name == "random":
+            def rnd(it, a, k, _v=v):
+                x = it.fresh_real("random")
+                it.assume(z3.And(x >= 0, x < 1))
+                _v.calls.append(x)
+                return x
+            return Builtin("Random.random", rnd)
         if isinstance(v, Tok):
             if getattr(v, "module_global", False):
                 # a long-lived module-level object the engine does not look into: calling a mutating
@@ -1761,6 +1768,8 @@ class Interp:
             return mod.globals[e.id]
         if e.id in self.world.builtins:
             return self.world.builtins[e.id]
+        if e.id in getattr(mod, "imported_names", ()):
+            raise Unsupported("imported name '%s' has no model in the engine" % e.id)
         if e.id in fr.func.node_locals():
             raise PyRaise("UnboundLocalError", "local variable '%s' referenced before assignment" % e.id,
                           getattr(e, "lineno", None))
